@@ -3,17 +3,25 @@
 #[verifier::external_body]
 pub struct FileReport<'value> { _p: &'value u8 }
 impl<'value> FileReport<'value> {
-    // contract of the real function: U-combine (group `report`)
+    // ghost view: how many per-rules-file reports were combined into this one (the contents are U-combine's business)
+    pub uninterp spec fn parts(&self) -> nat;
+    // contract of the real function: U-combine (group `report`): the union of both reports
     #[verifier::external_body]
-    pub fn combine(&mut self, report: FileReport<'value>) { unimplemented!() }
+    pub fn combine(&mut self, report: FileReport<'value>)
+        ensures final(self).parts() == old(self).parts() + report.parts(),
+    { unimplemented!() }
 }
 // stands for `FileReport { name: &each.name, ..Default::default() }`
 #[verifier::external_body]
-pub fn verif_file_report<'value>(name: &'value String) -> (r: FileReport<'value>) { unimplemented!() }
+pub fn verif_file_report<'value>(name: &'value String) -> (r: FileReport<'value>)
+    ensures r.parts() == 0,
+{ unimplemented!() }
 
 // contract of the real function: U-simpl (group `report`)
 #[verifier::external_body]
-pub fn simplified_json_from_root<'value>(root: &EventRecord<'value>) -> (r: Result<FileReport<'value>>) { unimplemented!() }
+pub fn simplified_json_from_root<'value>(root: &EventRecord<'value>) -> (r: Result<FileReport<'value>>)
+    ensures r is Ok ==> r->Ok_0.parts() == 1,
+{ unimplemented!() }
 
 #[verifier::external_body]
 pub struct SarifReport { _p: u8 }
